@@ -39,8 +39,16 @@ def gen_case(rng):
         if a["kind"] in ("a", "g", "b"):
             s = list(a["parts"][0]); s[len(s) // 2] = "N"
             a["spec"] = "".join(s); a["argv"] = [a["flag"], f"{a['name']}={a['spec']}"]
+    pair_adapters = False
+    if paired and ads2 and rng.random() < 0.2:
+        simple = ["a", "g", "a$", "g^"]
+        ads1 = [G.gen_adapter(rng, i, kinds=simple) for i in range(len(ads1))]
+        ads2 = [G.gen_adapter(rng, i, upper=True, prefix="bd", kinds=simple) for i in range(len(ads1))]
+        pair_adapters = True
     opts = [x for a in ads1 + ads2 for x in a["argv"]]
-    opts += ["-n", str(rng.choice([1, 1, 2])), "-e", rng.choice(["0.1", "0.2"]), "-O", "3"]
+    opts += ["-n", "1" if pair_adapters else str(rng.choice([1, 1, 2])), "-e", rng.choice(["0.1", "0.2"]), "-O", "3"]
+    if pair_adapters:
+        opts += ["--pair-adapters"]
     if rng.random() < 0.3:
         opts += ["--action", rng.choice(["mask", "lowercase", "none", "trim"])]
     if rng.random() < 0.3 and not paired:
@@ -108,7 +116,8 @@ def gen_case(rng):
     recs1, recs2 = G.gen_reads(rng, n, paired, ads1, ads2 or ads1, maxlen=40, nruns=True, polya="--poly-a" in opts,
                                header=rng.choice(["plain", "casava", "lengthtag"]), qual_profile=rng.choice(["decay", "mixed", "high"]),
                                revcomp_some="--revcomp" in opts)
-    return dict(paired=paired, opts=opts, io=io, recs1=recs1, recs2=recs2 if paired else None, fasta_out=fasta)
+    interleaved_in = paired and rng.random() < 0.25
+    return dict(paired=paired, opts=opts, io=io, recs1=recs1, recs2=recs2 if paired else None, fasta_out=fasta, interleaved_in=interleaved_in)
 
 
 def snapshot_dir(d):
@@ -157,9 +166,15 @@ def one_case(ctx, k):
     d = os.path.join(ctx.scratch, f"c{k}")
     os.makedirs(d, exist_ok=True)
     try:
-        inputs = climon.write_inputs(d, c["recs1"], c["recs2"])
+        if c["interleaved_in"]:
+            inter = [x for pair in zip(c["recs1"], c["recs2"]) for x in pair]
+            inputs = climon.write_inputs(d, inter, None, names=("inter", "unused"))
+            io = c["io"] if "--interleaved" in c["io"] else ["--interleaved"] + c["io"]
+        else:
+            inputs = climon.write_inputs(d, c["recs1"], c["recs2"])
+            io = c["io"]
         rel_inputs = ["../" + x for x in inputs]
-        base = c["opts"] + ["--json", "rep.json"] + c["io"] + rel_inputs
+        base = c["opts"] + ["--json", "rep.json"] + io + rel_inputs
         d1 = os.path.join(d, "j1")
         os.makedirs(d1)
         ref = climon.run(d1, base, tag="run", trace=False)
